@@ -41,6 +41,7 @@ const (
 )
 
 type worldOp struct {
+	DeliverGas *uint64 // walk hint: deliver the messages this operation emits with this gas instead of their own gas limit
 	Kind opKind
 	Call *callSpec // opTx / opSys
 	ID   int       // message id for deliver / refund
